@@ -34,6 +34,35 @@ def gen_cases(ctx, n):
         free = [p for p in mc.leaves_of(c) if json.dumps(flat(p)) not in defined]
         if not free:
             continue
+        fst = [n for l, n in c["store"] if l == "f"][0]
+        fstep = "a" if fst["kind"] == "obj" else "i"
+        if ctx.rng.random() < 0.35:
+            # a definition that CALLS THROUGH a function location, evaluated once, before the function object at that location
+            # is replaced (by the generated function / by the manager route): whatever an expression node remembers from its
+            # first evaluation must not survive the replacement.  Acyclic by construction: the summed container holds plain
+            # free leaves only and the target is a free leaf outside it.
+            conts = []
+
+            def walk(node, pre):
+                stp = "i" if node["kind"] in ("dict", "list", "userdict") else "a"
+                ms = [pre + [[stp, k_]] for k_, v in node["items"]]
+                if pre != ["c"] and all(not isinstance(v, dict) for _, v in node["items"]):
+                    conts.append((pre, ms))
+                for k_, v in node["items"]:
+                    if isinstance(v, dict):
+                        walk(v, pre + [[stp, k_]])
+            walk([n for l, n in c["store"] if l == "c"][0], ["c"])
+            fj = [json.dumps(flat(p)) for p in free]
+            ok = [(cp, ms) for cp, ms in conts if all(json.dumps(flat(m_)) in fj for m_ in ms)]
+            if ok:
+                cp, ms = ctx.rng.choice(ok)
+                outside = [p for p in free if p[:len(cp)] != cp and p[0] == "c"]
+                if outside:
+                    t = ctx.rng.choice(outside)
+                    c["ops"].append(["set", t, ["expr", ["callsum", ["f", [fstep, "sum"]], cp]], ctx.rng.choice(mc.ROUTES)])
+                    free = [p for p in free if p != t]
+                    if not free:
+                        continue
         k = ctx.rng.choice([1, 1, 2, 2, 3, 4])
         args = ctx.rng.sample(free, min(k, len(free)))
         vals = [mc.gen_value(ctx.rng, "mixed" if i % 5 == 4 else "int") for _ in args]
